@@ -66,7 +66,8 @@ response), having consumed at most limit + buffer; the failure is remembered. -/
 theorem oversize_413 (cfg : Cfg) (n m : Nat) (te : Option Str) (input : Rec)
     (hmap : cfg.errorsMap = Ombott.Gen.bodyErrorsMap) (hmb : cfg.maxBody = some m)
     (hte : isChunked te = false) (hb : 0 < cfg.memfile)
-    (hov : min n input.st.data.length > m) :
+    (hov : min n input.st.data.length > m)
+    (hlim : (natStr n).length ≤ Ombott.Gen.intMaxStrDigits) :
     (({ cfg := cfg, clHeader := some (natStr n), teHeader := te, input := input } : Req).body).1
         = .error (.http 413) ∧
     errStatus (.http 413) = 413 ∧
@@ -77,7 +78,7 @@ theorem oversize_413 (cfg : Cfg) (n m : Nat) (te : Option Str) (input : Rec)
       cases h : natStr n with
       | nil => exact absurd h (natStr_ne_nil n)
       | cons _ _ => rfl
-    simp [contentLength, hne, pyInt_natStr]
+    simp [contentLength, hne, pyIntLim_natStr n hlim]
   have h := oversize_rejected cfg.memfile m (n : Int) input hb (by simpa using hov)
   rcases hbr : bodyRead cfg.memfile (n : Int) false (some m) input with ⟨res, r'⟩
   rw [hbr] at h
@@ -235,6 +236,10 @@ example : min (5 : Int).toNat (List.replicate 9 (7 : UInt8)).length ≤ 5 := by 
 /-- `text_over_threshold_refused`: chunked request (no Content-Length), 6 bytes buffered, threshold 4 -/
 example : contentLength none = .ok (-1) ∧ ((-1 : Int) < 0 ∨ (-1 : Int) > ((4 : Nat) : Int)) ∧
     (bodyOf 4 (List.replicate 6 (7 : UInt8))).body.length > 4 := ⟨rfl, Or.inl (by decide), by decide⟩
+/-- `oversize_413`: a Content-Length text `int()` converts (the explicit hypothesis `hlim`); `'3'` is one,
+`'1' + '0'*4300` is not -/
+example : (natStr 3).length ≤ Ombott.Gen.intMaxStrDigits ∧ ¬ (natStr (10 ^ 4300)).length ≤ Ombott.Gen.intMaxStrDigits := by
+  decide +kernel
 end NonVacuity
 
 end Ombott.Body
